@@ -2049,6 +2049,7 @@ def odd_inputs():
     add("alt_is_primary", "", 'task a "A" { effort 2d allocate r { alternative r, r2 } }\n')
     add("scen_duration", '  scenario plan "Plan" { scenario s1 "S1" }\n', 'task a "A" { effort 1d allocate r s1:duration 3d }\n')
     add("scen_length", '  scenario plan "Plan" { scenario s1 "S1" }\n', 'task a "A" { effort 1d allocate r s1:length 3d }\n')
+    add("scen_duration_only", '  scenario plan "Plan" { scenario s1 "S1" }\n', 'task a "A" { s1:duration 3d }\ntask b "B" { s1:length 2d }\n')
     add("plain_duration", "", 'task a "A" { duration 3d }\ntask b "B" { length 2d depends !a }\n')
     add("undef_macro_date", "", 'task a "A" { effort 1d allocate r start ${nosuch} }\n')
     add("undef_macro_date_ms", "", 'task a "A" { start ${nosuch} }\n')
